@@ -77,6 +77,7 @@ type PResp struct {
 	Aggs    []AggOut          `json:"aggs,omitempty"`
 	Done    bool              `json:"done,omitempty"`
 	Found   bool              `json:"found,omitempty"`
+	Failed  string            `json:"failed,omitempty"`
 }
 
 var ErrDead = errors.New("store process died")
